@@ -78,11 +78,12 @@ theorem fsample_wf : FWFds fsample := by
 
 theorem rawNameOk_of_decide (n : Text)
     (h : n ≠ [] ∧ (∀ c ∈ n, notSemiBr c = true) ∧ (∀ c ∈ n, c.toNat < 128) ∧ (∀ c ∈ n, c ≠ '/') ∧
+      (n.take 4 = ['d', 'a', 'p', '4'] → ∀ c ∈ n.take 8, isNameRe c = true) ∧
       (n.head?.all fun c => !isSpace c) = true) :
     RawNameOk n :=
-  ⟨h.1, h.2.1, h.2.2.1, h.2.2.2.1, by
+  ⟨h.1, h.2.1, h.2.2.1, h.2.2.2.1, h.2.2.2.2.1, by
     intro c cs e
-    have := h.2.2.2.2
+    have := h.2.2.2.2.2
     rw [e] at this
     simpa using this⟩
 
